@@ -121,6 +121,10 @@ class FileResolver:
             # Yield files matching include patterns (applying gitignore + tool ignore)
             for filename in filenames:
                 filepath = current / filename
+                if filepath.is_symlink():
+                    # Nothing is reached through a symbolic link during traversal: the
+                    # target may lie outside the tree (or not exist at all).
+                    continue
                 if not self._include_spec.match_file(filename):
                     continue
                 if self._exceeds_max_size(filepath):
